@@ -218,3 +218,13 @@ pub fn async_block(a: u64) -> impl std::future::Future<Output = u64> {
 pub fn async_block_twin(a: u64) -> impl std::future::Future<Output = u64> {
     async move { m1(); let v = helper().await; m2(); a + v }
 }
+
+// ---- dotted custom field whose LAST segment is a parameter name: the parameter is still recorded under its own name
+#[instrument(fields(http.method = method))]
+pub fn dotted_leaf(method: &str, path: &str) -> u64 { m1(); m2() }
+pub fn dotted_leaf_twin(method: &str, path: &str) -> u64 { m1(); m2() }
+
+// ---- dotted custom field whose FIRST segment is a parameter name
+#[instrument(fields(a.len = 1))]
+pub fn dotted_root(a: u64, b: u64) -> u64 { m1(); a + b + m2() }
+pub fn dotted_root_twin(a: u64, b: u64) -> u64 { m1(); a + b + m2() }
